@@ -297,7 +297,7 @@ pub fn render(m: &Model, l: &Layout) -> Vec<String> {
     els.extend(m.frames.iter().map(El::Frame));
     let mut order: Vec<(usize, u16, usize)> = (0..els.len())
         .map(|i| {
-            let (f, k) = l.assign.get(i).cloned().unwrap_or((0, 0));
+            let (f, k) = if l.assign.is_empty() { (0, 0) } else { let (f, k) = l.assign[i % l.assign.len()]; (f, k.wrapping_add((i / l.assign.len()) as u16 * 7919)) };
             (f as usize % files, k, i)
         })
         .collect();
@@ -510,26 +510,36 @@ fn seqs(gaps: &[u8]) -> Vec<u32> {
 }
 
 pub fn model() -> BoxedStrategy<Model> {
+    // mostly small models; sometimes one with dozens of elements (maps that grow, many duplicates, long instance lists)
+    prop_oneof![24 => model_sized(false), 1 => model_sized(true)].boxed()
+}
+/// models of the usual small size only (for checks that enumerate every truncation offset of the rendered documents)
+pub fn model_small() -> BoxedStrategy<Model> {
+    model_sized(false)
+}
+fn model_sized(large: bool) -> BoxedStrategy<Model> {
     // pools of ids
-    let n_codings = 0usize..5;
-    let n_signals = 0usize..6;
+    let n_codings = if large { 0usize..9 } else { 0usize..5 };
+    let n_signals = if large { 0usize..9 } else { 0usize..6 };
+    let (n_pdus, n_frames, pdu_ids, frame_ids) = if large { (10usize..60, 8usize..40, 50u8, 30u32) } else { (0usize..9, 0usize..6, 7u8, 6u32) };
+    let (n_sig_inst, n_pdu_inst) = if large { (0usize..20, 0usize..24) } else { (0usize..6, 0usize..7) };
     (
         vec(prop_oneof![6 => prop::sample::select(BASE_TYPES.to_vec()).prop_map(|s| s.to_string()), 1 => Just("A_BITFIELD".to_string()), 1 => Just("A_FLOAT16".to_string())], n_codings),
         vec(0u8..8, n_signals),
-        vec((0u8..10, prop::option::weighted(0.7, free_text()), prop_oneof![2 => Just(Desc::Absent), 1 => Just(Desc::Empty), 1 => Just(Desc::EmptyTag), 5 => free_text().prop_map(Desc::Text)], 0u32..64, vec((any::<u8>(), 0u8..32), 0..6)), 0..9),
+        vec((0u8..(pdu_ids + 3), prop::option::weighted(0.7, free_text()), prop_oneof![2 => Just(Desc::Absent), 1 => Just(Desc::Empty), 1 => Just(Desc::EmptyTag), 5 => free_text().prop_map(Desc::Text)], 0u32..64, vec((any::<u8>(), 0u8..32), n_sig_inst)), n_pdus),
         vec(
             (
-                (prop_oneof![4 => 0u32..6, 1 => any::<u32>()], prop::bool::weighted(0.85)),
+                (prop_oneof![4 => 0u32..frame_ids, 1 => any::<u32>()], prop::bool::weighted(0.85)),
                 free_text(),
                 0u32..200,
-                vec((any::<u8>(), 0u8..12), 0..7),
+                vec((any::<u8>(), 0u8..64), n_pdu_inst),
                 prop::option::weighted(0.8, (prop::option::weighted(0.85, free_text()), prop::option::weighted(0.85, free_text()), prop::option::weighted(0.85, short_id()), prop::option::weighted(0.85, short_id()))),
             ),
-            0..6,
+            n_frames,
         ),
         prop::bool::weighted(0.08),
     )
-        .prop_map(|(codings, signals, pdus, frames, dangling)| {
+        .prop_map(move |(codings, signals, pdus, frames, dangling)| {
             let codings: Vec<(String, String)> = codings.into_iter().enumerate().map(|(i, b)| (format!("CODING_{}", i), b)).collect();
             // signals refer to codings 0..8 (some dangling when there are fewer codings)
             let signals: Vec<(String, String)> = signals.into_iter().enumerate().map(|(i, c)| (format!("SIG_{}", i), format!("CODING_{}", c))).collect();
@@ -538,7 +548,7 @@ pub fn model() -> BoxedStrategy<Model> {
                 .map(|(idn, short_name, desc, byte_length, sigs)| {
                     let sq = seqs(&sigs.iter().map(|s| s.0).collect::<Vec<_>>());
                     Pdu {
-                        id: format!("PDU_{}", idn % 7), // duplicates on purpose
+                        id: format!("PDU_{}", idn % pdu_ids), // duplicates on purpose
                         short_name,
                         desc,
                         byte_length,
